@@ -97,6 +97,10 @@ var shapes = func() []shape {
 // second-argument shapes
 var bShapes = []string{"i1", "nil", "s", "l", "m", "im3", "ls", "st"}
 
+// first-argument shapes of the quick tier (thorough: all): one representative per kind
+var aQuick = []string{"nil", "true", "i0", "i1", "im3", "u8", "imax", "f", "nan", "s0", "s", "snum", "sbad", "sfmt", "sre", "named", "bytes",
+	"l0", "l", "ll", "ls", "li", "arr", "m0", "m", "msi", "mis", "mii", "mst", "st", "pst", "npst", "emb", "meth", "pi", "nm", "ns", "t", "fn", "fn1", "ch"}
+
 var shapeByName = func() map[string]*shape {
 	m := map[string]*shape{}
 	for i := range shapes {
@@ -202,8 +206,14 @@ func runGrid(t *vlib.T) {
 			as := []*shape{shapeByName["i1"]}
 			if c.a {
 				as = as[:0]
-				for i := range shapes {
-					as = append(as, &shapes[i])
+				if t.Thorough() {
+					for i := range shapes {
+						as = append(as, &shapes[i])
+					}
+				} else {
+					for _, n := range aQuick {
+						as = append(as, shapeByName[n])
+					}
 				}
 			}
 			for _, a := range as {
@@ -229,9 +239,11 @@ func runGrid(t *vlib.T) {
 						continue
 					}
 					a, bn := a, bn
-					t.Case(key, func() *vlib.Outcome {
+					tcase(t, key, func() *vlib.Outcome {
 						ctx := map[string]interface{}{"v": v.v, "a": a.v, "b": shapeByName[bn].v}
-						o := runSource("g", c.src, []map[string]interface{}{ctx}, !v.scalar, map[string]interface{}{"template": c.src, "v": fmt.Sprintf("%s = %#v", v.name, v.v), "a": fmt.Sprintf("%s = %#v", a.name, a.v), "b": bn})
+						o := runSource("g", c.src, []map[string]interface{}{ctx}, !v.scalar, func() interface{} {
+							return map[string]interface{}{"template": c.src, "v": fmt.Sprintf("%s = %#v", v.name, v.v), "a": fmt.Sprintf("%s = %#v", a.name, a.v), "b": bn}
+						})
 						if o.Counters["renders"] == 0 {
 							o.Nontrivial = false
 						}
